@@ -292,7 +292,7 @@ pub fn for_property(prop: &str, tier: Tier) -> Vec<(SysCfg, RunOpts)> {
             s.triples(&a, &[2, 3], &menu3, &[Final::Seq], &bounded(b3));
         }
         "C18" => {
-            let m = menu(&["N,N", "DN", "C2,N", "DC2", "B2x2", "DB2", "FE1", "FE2", "EF2", "FO2", "I,DB3", "L,N"]);
+            let m = menu(&["N,N", "DN", "C2,N", "DC2", "B2x2", "DB2", "FE1", "FE2", "EF2", "FO2", "I,DB3", "L,N", "S", "N,S,N"]);
             for &kind in &all {
                 for len in 1..=3usize {
                     for a in &m {
